@@ -1263,7 +1263,9 @@ impl Tuple {
     }
 
     pub(crate) fn delete(&mut self, xid: TransactionId) -> TupleResult<()> {
-        if self.is_deleted() {
+        // Callers only delete tuples that are visible to them, so a delete mark that is already there
+        // belongs to a transaction whose delete did not take effect (it rolled back): it is replaced.
+        if self.xmax() == Some(xid) {
             return Ok(());
         }
 
@@ -1273,6 +1275,14 @@ impl Tuple {
         header.write_to(buffer, 0);
 
         Ok(())
+    }
+
+    /// Removes the delete mark (used when the deleting transaction rolled back).
+    pub(crate) fn clear_delete(&mut self) {
+        let buffer = self.data.effective_data_mut();
+        let (mut header, _) = TupleHeader::read_from(buffer, 0);
+        header.xmax = -1;
+        header.write_to(buffer, 0);
     }
 
     /// Vacuums the tuple by removing all delta versions that are no longer needed
